@@ -287,6 +287,7 @@ func c06Dispatch(c *core.Ctx, fn *types.Func, name string, mkRec func(string, in
 	off := map[string]float64{"rawDistance": 0, "snpDistance": 10, "tn93Distance": 20}
 	// three targets that are alike in every field the selection may look at (score, base counts) but lie at different
 	// distances: what is ranked and reported for a target is the distance function's value for THAT target
+	// (the query carries the name of one of the targets: a record's name is no part of any distance)
 	table := map[string]float64{"t0": 3, "t1": 1, "t2": 2}
 	var bad []string
 	for measure, fname := range map[string]string{"raw": "rawDistance", "snp": "snpDistance", "tn93": "tn93Distance"} {
@@ -296,9 +297,9 @@ func c06Dispatch(c *core.Ctx, fn *types.Func, name string, mkRec func(string, in
 		feed := &eval.ChanVal{Name: "in", Feed: []eval.Value{mkRec("t0", 0, 'C', 1), mkRec("t1", 1, 'C', 1), mkRec("t2", 2, 'C', 1)}}
 		var err error
 		if name == "findClosest" {
-			_, err = ev.CallFunc(fn, mkRec("q", 5, 'A', 0), eval.S(measure), feed, out)
+			_, err = ev.CallFunc(fn, mkRec("t1", 5, 'A', 0), eval.S(measure), feed, out)
 		} else {
-			_, err = ev.CallFunc(fn, mkRec("q", 5, 'A', 0), eval.K(3), eval.FConst(-1), eval.S(measure), feed, out)
+			_, err = ev.CallFunc(fn, mkRec("t1", 5, 'A', 0), eval.K(3), eval.FConst(-1), eval.S(measure), feed, out)
 		}
 		if err != nil || len(out.Sent) != 1 {
 			bad = append(bad, fmt.Sprintf("%s: undecided: %v", measure, err))
@@ -346,7 +347,7 @@ func c06Dispatch(c *core.Ctx, fn *types.Func, name string, mkRec func(string, in
 				stub(ev, tab2, off)
 				out := &eval.ChanVal{Name: "out"}
 				feed := &eval.ChanVal{Name: "in", Feed: []eval.Value{mkRec("t0", 0, 'C', 1), mkRec("t1", 1, 'C', 1), mkRec("t2", 2, 'C', 2), mkRec("t3", 3, 'C', 3)}}
-				if _, err := ev.CallFunc(fn, mkRec("q", 5, 'A', 0), eval.K(K), eval.FConst(-1), eval.S(measure), feed, out); err != nil || len(out.Sent) != 1 {
+				if _, err := ev.CallFunc(fn, mkRec("t1", 5, 'A', 0), eval.K(K), eval.FConst(-1), eval.S(measure), feed, out); err != nil || len(out.Sent) != 1 {
 					bad = append(bad, fmt.Sprintf("%s K=%d: undecided: %v", measure, K, err))
 					continue
 				}
@@ -533,8 +534,17 @@ func c06Writers(c *core.Ctx) {
 		d    float64
 		snps []string
 	}
-	mkRes := func(q string, qi int64, h hit) *eval.StructVal {
-		r := absValue(resT, "r", eval.K(0)).(*eval.StructVal)
+	// the members of a catchment have whatever element type the catchment field declares
+	memberT := resT
+	if st, ok := catT.Underlying().(*types.Struct); ok {
+		for i := 0; i < st.NumFields(); i++ {
+			if sl, isSl := st.Field(i).Type().Underlying().(*types.Slice); isSl && st.Field(i).Name() == "catchment" {
+				memberT = sl.Elem()
+			}
+		}
+	}
+	mkResOf := func(t types.Type, q string, qi int64, h hit) *eval.StructVal {
+		r := absValue(t, "r", eval.K(0)).(*eval.StructVal)
 		r.F["qname"] = eval.S(q)
 		r.F["qidx"] = eval.K(qi)
 		r.F["tname"] = eval.S(h.t)
@@ -547,6 +557,8 @@ func c06Writers(c *core.Ctx) {
 		r.F["snps"] = eval.NewSlice(ss...)
 		return r
 	}
+	mkRes := func(q string, qi int64, h hit) *eval.StructVal { return mkResOf(resT, q, qi, h) }
+	mkMember := func(q string, qi int64, h hit) *eval.StructVal { return mkResOf(memberT, q, qi, h) }
 	fmtD := func(measure string, d float64) string {
 		if measure == "snp" {
 			return strconv.Itoa(int(d))
@@ -615,7 +627,7 @@ func c06Writers(c *core.Ctx) {
 				if measure == "snp" {
 					h.d = float64(int(h.d*4) % 5)
 				}
-				hs = append(hs, mkRes(q.q, int64(i), h))
+				hs = append(hs, mkMember(q.q, int64(i), h))
 				names = append(names, h.t)
 				wantT += q.q + "," + h.t + "," + fmtD(measure, h.d) + "\n"
 			}
